@@ -76,7 +76,10 @@ def _run_case(case):
     for f, w in exp.items():
         g = getattr(r3, f)
         scale = max(abs(r.effect_size), abs(r.control), 1e-300)
-        ok = _close(g, w) or (math.isfinite(g) and math.isfinite(w) and abs(g - w) <= 1e-9 * scale)
+        if f == "pvalue":     # tail probabilities are compared RELATIVELY: sf(s) and cdf(-s) agree to many digits also at 1e-40
+            ok = _close(g, w, 1e-6, 1e-300)
+        else:
+            ok = _close(g, w) or (math.isfinite(g) and math.isfinite(w) and abs(g - w) <= 1e-9 * scale)
         if not ok:
             bad.append((f"swap: {f}", g, w))
     return bad
@@ -91,6 +94,9 @@ def oracle(ctx, deep=False):
         case = {"cfg": meanx.cfg_json(cfg), "c": 10.0 ** ctx.rng.randint(-9, 9) * ctx.rng.choice([1.0, 2.5, 7.0]),
                 "control": meanx.float_table(ctx.rng, ctx.rng.choice([3, 10, 200]), kind=kind),
                 "treatment": meanx.float_table(ctx.rng, ctx.rng.choice([4, 30, 150]), kind=kind)}
+        if ctx.rng.random() < 0.25:      # a strongly significant difference (|statistic| of 10 - 40): tail p-values of 1e-20 .. 1e-300
+            case["control"] = meanx.float_table(ctx.rng, 200, kind=kind)
+            case["treatment"] = {c: [v * 1.6 for v in vals] for c, vals in meanx.float_table(ctx.rng, 150, kind=kind).items()}
         try:
             bad = _run_case(case)
         except (ZeroDivisionError, OverflowError, ValueError):
